@@ -145,6 +145,14 @@ def case_hand_vs_ad(which, rep):
             impl = {"NeoHooke(mu)": fem.NeoHooke(mu=mu), "tt.neo_hooke": fem.Hyperelastic(fem.neo_hooke, mu=mu),
                     "jax.neo_hooke": JX.Hyperelastic(JX.models.hyperelastic.neo_hooke, mu=mu)}
             svs = {k: None for k in impl}
+            # the same law offered in one piece and as the sum of its distortional and volumetric parts (bulk-only mode): at volume-
+            # changing states (the initial bulk modulus alone does not see the pressure-dependent terms)
+            bulk = float(rng.uniform(2, 30))
+            Fv = F * rng.uniform(0.85, 1.2, (1, 1) + batch)
+            full, parts = fem.NeoHooke(mu=mu, bulk=bulk), fem.NeoHooke(mu=mu) & fem.Volumetric(bulk=bulk)
+            Pf, Af = full.gradient([Fv, None])[0], full.hessian([Fv, None])[0]
+            compare(run, "NeoHooke(mu,bulk)~NeoHooke(mu)&Volumetric(bulk)", "stress", parts.gradient([Fv, None])[0], Pf, maxabs(Af), 1e-12, "hand:composite:stress")
+            compare(run, "NeoHooke(mu,bulk)~NeoHooke(mu)&Volumetric(bulk)", "elasticity", parts.hessian([Fv, None])[0], Af, maxabs(Af), 1e-12, "hand:composite:elasticity")
         elif which == "NeoHookeCompressible":
             reg = {m.name: m for m in C03.registry()}
             E = mu * (3 * lm + 2 * mu) / (lm + mu)
@@ -368,7 +376,7 @@ def _required():
     for n in SHARED:
         req += ["jax~tensortrax:%s:stress" % n, "jax~tensortrax:%s:elasticity" % n]
     req += ["jax~tensortrax:lagrange.morph:stress", "jax~tensortrax:lagrange.morph_representative_directions:stress",
-            "NeoHooke(mu)~tt.neo_hooke:stress", "NeoHooke(mu)~jax.neo_hooke:elasticity", "NeoHookeCompressible~LinearElasticLargeStrain(lame_converter):stress",
+            "NeoHooke(mu)~tt.neo_hooke:stress", "NeoHooke(mu)~jax.neo_hooke:elasticity", "hand:composite:stress", "hand:composite:elasticity", "NeoHookeCompressible~LinearElasticLargeStrain(lame_converter):stress",
             "NeoHookeCompressible~total_lagrange(S):stress", "NeoHookeCompressible~updated_lagrange(sigma):elasticity", "NeoHookeCompressible~jax.updated_lagrange(sigma):stress",
             "NeoHookeCompressible~jax.total_lagrange(S):stress",
             "OgdenRoxburgh(NeoHooke)~tt.ogden_roxburgh(neo_hooke):stress", "OgdenRoxburgh(NeoHooke)~tt.ogden_roxburgh(neo_hooke):statevars",
